@@ -619,8 +619,12 @@ def select_error_kwargs(
         if arg_name in contract.error_arg_set
     }
 
+    assert contract.error_mandatory_args is not None
+
     missing_args = [
-        arg_name for arg_name in contract.error_args if arg_name not in resolved_kwargs
+        arg_name
+        for arg_name in contract.error_mandatory_args
+        if arg_name not in resolved_kwargs
     ]
     if missing_args:
         msg_parts = []  # type: List[str]
